@@ -72,6 +72,19 @@ fn values_equal(a: &str, b: &str) -> bool {
 	}
 }
 
+type Built = std::thread::Result<(Vec<bool>, Result<Option<Box<RawValue>>, serde_json::Error>)>;
+
+/// `new()` and `default()` of a params builder are two spellings of "an empty builder": same insert results, same text
+fn ctor_differs(a: &Built, b: &Built) -> Option<String> {
+	let show = |r: &Built| match r {
+		Err(_) => "PANIC".to_string(),
+		Ok((f, Ok(t))) => format!("{f:?} {:?}", t.as_ref().map(|t| t.get().to_string())),
+		Ok((f, Err(e))) => format!("{f:?} E {e}"),
+	};
+	let (x, y) = (show(a), show(b));
+	if x == y { None } else { Some(format!("builds {y}, new() builds {x}")) }
+}
+
 fn do_case(out: &mut Out, line: &str) {
 	let w: Vec<&str> = line.split(' ').collect();
 	match w[0] {
@@ -79,18 +92,26 @@ fn do_case(out: &mut Out, line: &str) {
 			let ops: Vec<V> = w[1..].iter().map(|s| parse_op(s)).collect();
 			let mline = std::iter::once("arr".to_string()).chain(ops.iter().map(model_op)).collect::<Vec<_>>().join(" ");
 			let oks: Vec<String> = ops.iter().filter_map(|v| if let V::Ok(r) = v { Some(r.get().to_string()) } else { None }).collect();
-			let res = std::panic::catch_unwind(std::panic::AssertUnwindSafe(|| {
-				let mut b = ArrayParams::new();
-				let mut flags = vec![];
-				for v in &ops {
-					let r = match v {
-						V::Ok(r) => b.insert(r).is_ok(),
-						V::Fail(f) => b.insert(f).is_ok(),
-					};
-					flags.push(r);
-				}
-				(flags, b.to_rpc_params())
-			}));
+			let run = |fresh: fn() -> ArrayParams| {
+				std::panic::catch_unwind(std::panic::AssertUnwindSafe(|| {
+					let mut b = fresh();
+					let mut flags = vec![];
+					for v in &ops {
+						let r = match v {
+							V::Ok(r) => b.insert(r).is_ok(),
+							V::Fail(f) => b.insert(f).is_ok(),
+						};
+						flags.push(r);
+					}
+					(flags, b.to_rpc_params())
+				}))
+			};
+			let res = run(ArrayParams::new);
+			// the other way to get an empty builder must build the same params
+			if let Some(d) = ctor_differs(&res, &run(<ArrayParams as Default>::default)) {
+				out.line(mline, "DEFAULT".into(), Err(format!("ArrayParams::default() {d}")), true);
+				return;
+			}
 			match res {
 				Ok((flags, Ok(built))) => {
 					let o = format!("r {} | {}", flags.iter().map(|f| if *f { "1" } else { "0" }).collect::<Vec<_>>().join(" "), built.as_ref().map(|r| hexs(r.get())).unwrap_or("none".into()));
@@ -132,18 +153,25 @@ fn do_case(out: &mut Out, line: &str) {
 			let ops: Vec<(String, V)> = w[1..].iter().map(|s| { let (k, v) = s.split_once('=').unwrap(); (String::from_utf8(unhex(k)).unwrap(), parse_op(v)) }).collect();
 			let mline = std::iter::once("obj".to_string()).chain(ops.iter().map(|(k, v)| format!("{}={}", hexs(k), model_op(v)))).collect::<Vec<_>>().join(" ");
 			let oks: Vec<(String, String)> = ops.iter().filter_map(|(k, v)| if let V::Ok(r) = v { Some((k.clone(), r.get().to_string())) } else { None }).collect();
-			let res = std::panic::catch_unwind(std::panic::AssertUnwindSafe(|| {
-				let mut b = ObjectParams::new();
-				let mut flags = vec![];
-				for (k, v) in &ops {
-					let r = match v {
-						V::Ok(r) => b.insert(k, r).is_ok(),
-						V::Fail(f) => b.insert(k, f).is_ok(),
-					};
-					flags.push(r);
-				}
-				(flags, b.to_rpc_params())
-			}));
+			let run = |fresh: fn() -> ObjectParams| {
+				std::panic::catch_unwind(std::panic::AssertUnwindSafe(|| {
+					let mut b = fresh();
+					let mut flags = vec![];
+					for (k, v) in &ops {
+						let r = match v {
+							V::Ok(r) => b.insert(k, r).is_ok(),
+							V::Fail(f) => b.insert(k, f).is_ok(),
+						};
+						flags.push(r);
+					}
+					(flags, b.to_rpc_params())
+				}))
+			};
+			let res = run(ObjectParams::new);
+			if let Some(d) = ctor_differs(&res, &run(<ObjectParams as Default>::default)) {
+				out.line(mline, "DEFAULT".into(), Err(format!("ObjectParams::default() {d}")), true);
+				return;
+			}
 			match res {
 				Ok((flags, Ok(built))) => {
 					let o = format!("r {} | {}", flags.iter().map(|f| if *f { "1" } else { "0" }).collect::<Vec<_>>().join(" "), built.as_ref().map(|r| hexs(r.get())).unwrap_or("none".into()));
